@@ -1168,9 +1168,16 @@ func (el edgeList) Less(i, j int) bool {
 		return to1 < to2
 	}
 
-	// Same magnitude and names: order by sign so that the result does not
-	// depend on the order the edges come out of the map.
-	return el[i].Weight > el[j].Weight
+	// Same magnitude and names: order by sign and by the remaining printed
+	// attributes so that the result does not depend on the order the edges
+	// come out of the map.
+	if el[i].Weight != el[j].Weight {
+		return el[i].Weight > el[j].Weight
+	}
+	if el[i].Residual != el[j].Residual {
+		return !el[i].Residual
+	}
+	return !el[i].Inline && el[j].Inline
 }
 
 func (el edgeList) Swap(i, j int) {
